@@ -119,7 +119,7 @@ class UserPfileKnife(Task):
         m, OUT = inp["m"], inp["OUT"]
         v = out.value
         ok = isinstance(v, tuple) and len(v) == 3
-        ctx.oblige("post.returns-triple", ok, "P")
+        ctx.structure("post.returns-triple", ok)
         if not ok:
             return
         ctx.oblige("post.offsets", veq(ctx, v[0], SymSeq(m, lambda j: OUT(to_z3(j)))), "P")
@@ -315,7 +315,7 @@ class CanteraKnife(Task):
         m, OUT = inp["m"], inp["OUT"]
         v = out.value
         ok = isinstance(v, tuple) and len(v) == 3
-        ctx.oblige("post.returns-triple", ok, "P")
+        ctx.structure("post.returns-triple", ok)
         if not ok:
             return
         ctx.oblige("post.offsets", veq(ctx, v[0], SymSeq(m, lambda j: OUT(to_z3(j)))), "P")
@@ -471,7 +471,7 @@ class SarrayInput(Task):
             return
         v = out.value
         ok = isinstance(v, tuple) and len(v) == 4
-        ctx.oblige("post.returns-gas-pressure-start-end", ok, "P")
+        ctx.structure("post.returns-gas-pressure-start-end", ok)
         if not ok:
             return
         ctx.oblige("post.gas", v[0] is inp["gas"], "P")
@@ -636,7 +636,7 @@ class StateTables(Task):
         sa = ex.globals_model.get((CF[:-1], "SARRAYS"))
         pr = ex.globals_model.get((CF[:-1], "PRESSURES"))
         ok = isinstance(sa, dict) and isinstance(pr, dict)
-        ctx.oblige("post.module-tables-set", ok, "P")
+        ctx.structure("post.module-tables-set", ok)
         if not ok:
             return
         shapes = {tuple(h - l + 1 for l, h in zip(lo, hi)) for lv in self.boxes[:self.limit + 1] for lo, hi in lv}
@@ -747,7 +747,7 @@ class CookTask(FragmentTask):
         v, B, off = out.value, inp["B"], inp["off"]
         calls, bmap = v.get("mp_calls"), v.get("box_index_map")
         ok = isinstance(calls, list) and len(calls) == 1 and isinstance(calls[0], dict) and isinstance(bmap, list) and len(bmap) == 1
-        ctx.oblige("post.one-task-and-one-id-list-appended", ok, "P")
+        ctx.structure("post.one-task-and-one-id-list-appended", ok)
         if not ok:
             return
         ids = ex.as_iterable(bmap[0])
